@@ -318,3 +318,120 @@ def refq_category_area(chk, db, prefixes, rule="REFQCAT"):
             if bad:
                 chk.violation(rule, construct, wclass, "%s: %s" % (astx.loc(g, bad[0][0]), why), {"where": astx.loc(g)})
     return n
+
+
+# ---- SHIFTNEG ------------------------------------------------------------------------------------------------------------------
+def _lower_bounded(cond, name):
+    """does the condition (an expression) contain an atom that bounds parameter `name` from below by a non-negative constant?"""
+    for x in astx.walk_expr(cond):
+        if x.get("k") != "bin" or x.get("op") not in (">=", ">", "<=", "<", "=="):
+            continue
+        l, r = astx.strip_casts(x["l"]), astx.strip_casts(x["r"])
+
+        def is_p(e):
+            return e is not None and e.get("k") == "ref" and e.get("n") == name
+
+        def const(e):
+            if e is None:
+                return None
+            if e.get("k") == "char":
+                return int(e["v"])
+            if e.get("k") == "un" and e.get("op") == "-" and astx.int_value(astx.strip_casts(e.get("e"))) is not None:
+                return -astx.int_value(astx.strip_casts(e["e"]))
+            return astx.int_value(e)
+        op = x["op"]
+        if is_p(l) and const(r) is not None:
+            c = const(r)
+            if (op == ">=" and c >= 0) or (op == ">" and c >= -1) or (op == "==" and c >= 0):
+                return True
+        if is_p(r) and const(l) is not None:
+            c = const(l)
+            if (op == "<=" and c >= 0) or (op == "<" and c >= -1) or (op == "==" and c >= 0):
+                return True
+    return False
+
+
+def shift_negative_area(chk, db, prefixes, rule="SHIFTNEG"):
+    """A shift whose count is a *signed* parameter (the `int ch` of the <cctype> functions, for which EOF = -1 is a valid
+    argument) is evaluated only where that parameter is known to be non-negative: a negative count is undefined, so the call is
+    not a constant expression while the run-time shift wraps the count. The facts considered are the conditions of enclosing
+    `if`s and the left operands of enclosing `&&` / `and` (short-circuit)."""
+    n = 0
+    for f in db.funcs:
+        if f.get("body") is None or not any(f["file"].startswith(p) for p in prefixes):
+            continue
+        signed = set(p["n"] for p in f["params"] if (p.get("ty") or "").replace("const ", "").strip() in ("int", "long", "short", "signed char", "char", "long long", "etl::wint_t", "wint_t"))
+        if not signed:
+            continue
+        found = []
+
+        def walk(e, facts):
+            if not isinstance(e, dict):
+                return
+            if e.get("k") == "if":
+                walk(e.get("c"), facts)
+                walk(e.get("then"), facts + [e.get("c")])
+                walk(e.get("else"), facts)
+                return
+            if e.get("k") == "bin" and e.get("op") in ("&&", "and"):
+                walk(e["l"], facts)
+                walk(e["r"], facts + [e["l"]])
+                return
+            if e.get("k") == "cond":
+                walk(e.get("c"), facts)
+                walk(e.get("t"), facts + [e.get("c")])
+                walk(e.get("f"), facts)
+                return
+            if e.get("k") == "bin" and e.get("op") in ("<<", ">>", "<<=", ">>="):
+                cnt = e["r"]
+                while cnt is not None and cnt.get("k") in ("paren",):
+                    cnt = cnt.get("e")
+                c0 = astx.strip_casts(cnt)
+                if c0 is not None and c0.get("k") == "ref" and c0.get("d") == "param" and c0.get("n") in signed:
+                    # a cast of the count to an unsigned type makes the shift defined (if large): not this rule's business
+                    if not (cnt.get("k") == "cast" and "unsigned" in (cnt.get("ty") or "")):
+                        found.append((e, c0["n"], list(facts)))
+            for k, v in e.items():
+                if isinstance(v, dict):
+                    walk(v, facts)
+                elif isinstance(v, list):
+                    for y in v:
+                        walk(y, facts)
+        walk(f["body"], [])
+        for node, name, facts in found:
+            n += 1
+            label = "%s :: `%s`" % (astx.sig(f), astx.show(node, 50))
+            chk.instance(rule)
+            ok = any(fc is not None and _lower_bounded(fc, name) for fc in facts)
+            chk.obligation(rule, label, ok)
+            if not ok:
+                chk.violation(rule, label, "negative-shift-count", "%s: `%s` shifts by the signed parameter `%s` where nothing excludes a negative "
+                              "value (EOF is a valid argument): the shift is undefined there - not a constant expression, while the run-time "
+                              "instruction masks the count" % (astx.loc(f, node), astx.show(node, 50), name), {"where": astx.loc(f)})
+    return n
+
+
+def shift_negative_control(chk, D):
+    import os
+    fx_path = os.path.join(D.VERIF, "fixtures", "extra12_pos.hpp")
+    fx = D.load_source('#include "%s"\n' % fx_path, root=os.path.dirname(fx_path) + "/", tag="fixture-extra12")
+
+    class _Probe:
+        def __init__(self):
+            self.bad = []
+
+        def instance(self, *a, **k):
+            pass
+
+        def obligation(self, rule, label, ok, **k):
+            if ok is False:
+                self.bad.append(label)
+
+        def violation(self, *a, **k):
+            pass
+    pr = _Probe()
+    shift_negative_area(pr, fx, [""])
+    if not any("space_mask_bad" in b for b in pr.bad):
+        chk.analysis_broken("SHIFTNEG: the positive control fixture::space_mask_bad was not reported")
+    if any("space_mask_good" in b for b in pr.bad):
+        chk.analysis_broken("SHIFTNEG: the negative control fixture::space_mask_good was reported")
